@@ -132,7 +132,7 @@ class C07(Prop):
 def c07_known(case, f):
     # class: an uninterpreted value holds tag 2/3 on an indefinite byte string (<= 16 bytes) — visible in the input bytes
     h = case['op'].split(' ')[-1]
-    return 'differ' not in case['why'] and has_small_bignum_hex(h)
+    return 'proved model' not in case['why'] and re.search(r'\(tag [23] b[0-9a-f]{0,32}\)', case['impl'].split(' ok ')[0]) is not None
 P.KNOWN_PRED['c07-small-bignum-indefinite'] = c07_known
 P.WITNESS_PRED['c07-small-bignum-indefinite'] = lambda w, impl, f: C07().impl_pred(dict(op=w, meta={}), impl) is not None
 
@@ -316,7 +316,7 @@ C11.impl_pred = _c11_pred2
 class C12(Prop):
     pid = 'C12'
     def gen(self, seed, tier):
-        r = random.Random(seed); g = T(seed, valid=1.0); ops = []
+        r = random.Random(seed); g = T(seed, valid=1.0, orig_p=0.0); ops = []   # stored protected bytes are opaque (C02), not encoder output
         I = lambda x: ('int', x)
         labs = [0, 1, 2, 3, 4, 5, 6, 7, 8, 9, 24, 256, 65536, -1, -24, -25, -65537, 2**63 - 1, -2**63]
         def key_encs(l):
@@ -379,29 +379,55 @@ class C12(Prop):
             if bad: return 'encoder emitted a map with a repeated key: ' + bad
         return None
 
+def _keys_dup(m):
+    ks = [vsx(k) for k, _ in m]
+    for k in ks:
+        if ks.count(k) > 1: return k
+    return None
+def hdr_dups(v):
+    if v[0] != 'map': return None
+    d = _keys_dup(v[1])
+    if d: return d
+    for k, x in v[1]:
+        if k == ('int', 7) and x[0] == 'array' and x[1]:
+            sigs = [x] if x[1][0][0] == 'bytes' else x[1]
+            for sg in sigs:
+                d = sig_dups(sg)
+                if d: return d
+    return None
+def prot_dups(b):
+    if b[0] != 'bytes' or not b[1]: return None
+    dd = refcbor.decode(b[1])
+    return hdr_dups(dd[1]) if dd[0] == 'ok' else None
+def sig_dups(a):
+    if a[0] != 'array' or len(a[1]) < 2: return None
+    return prot_dups(a[1][0]) or hdr_dups(a[1][1])
+def rcp_dups(a):
+    d = sig_dups(a)
+    if d: return d
+    if a[0] == 'array' and len(a[1]) == 4 and a[1][3][0] == 'array':
+        for r_ in a[1][3][1]:
+            d = rcp_dups(r_)
+            if d: return d
+    return None
 def dup_in_maps(v, op):
-    """first duplicate key found in the coset-level maps of an encoded item (top map, or header slots of arrays)"""
-    def keys_dup(m):
-        ks = [vsx(k) for k, _ in m]
-        for k in ks:
-            if ks.count(k) > 1: return k
+    """first duplicate key in a coset-level map (header maps at every nesting position, key maps, claims maps)"""
+    t = op.split(' ')[1] if op.split(' ')[0] in ('enc', 'tov', 'enct') else 'ProtectedHeader'
+    if t in ('Header', 'ProtectedHeader'): return hdr_dups(v)
+    if t == 'CoseKey': return _keys_dup(v[1]) if v[0] == 'map' else None
+    if t == 'CoseKeySet':
+        for k in (v[1] if v[0] == 'array' else []):
+            d = _keys_dup(k[1]) if k[0] == 'map' else None
+            if d: return d
         return None
-    if v[0] == 'map':
-        d = keys_dup(v[1])
-        if d: return d
-        for k, x in v[1]:
-            if k == ('int', 7) and x[0] == 'array':
-                d = dup_in_maps(x, op)
-                if d: return d
+    if t == 'ClaimsSet': return _keys_dup(v[1]) if v[0] == 'map' else None
     if v[0] == 'array':
-        for x in v[1]:
-            if x[0] in ('map', 'array'):
-                d = dup_in_maps(x, op)
-                if d: return d
-            if x[0] == 'bytes' and x[1][:1] in (b'\xa1', b'\xa2', b'\xa3', b'\xa4', b'\xa5', b'\xa6', b'\xa7', b'\xa8', b'\xa9', b'\xaa'):
-                dd = refcbor.decode(x[1])
-                if dd[0] == 'ok':
-                    d = dup_in_maps(dd[1], op)
+        d = sig_dups(v)
+        if d: return d
+        for x in v[1][2:]:
+            if x[0] == 'array':
+                for y in x[1]:
+                    d = rcp_dups(y)
                     if d: return d
     return None
 
